@@ -306,4 +306,52 @@ Str lower_outside_triplets(const Str &s) {
     return o;
 }
 
+
+static bool has_colon(const Str &s) { return s.find(':') != Str::npos; }
+void normalize(const RUri &in, unsigned mask, Normal &out) {
+    out = Normal(); RUri &u = out.u; u = in;
+    if ((mask & N_SCHEME) && u.scheme.present) u.scheme.text = to_lower(u.scheme.text);
+    if ((mask & N_USER) && u.userinfo.present) u.userinfo.text = decode_unreserved(u.userinfo.text);
+    if ((mask & N_HOST) && u.has_authority) {
+        if (u.hostkind == HK_REGNAME) u.host.text = lower_outside_triplets(decode_unreserved(u.host.text));
+        else if (u.hostkind == HK_FUTURE) u.host.text = to_lower(u.host.text);
+    }
+    if ((mask & N_QUERY) && u.query.present) u.query.text = decode_unreserved(u.query.text);
+    if ((mask & N_FRAGMENT) && u.fragment.present) u.fragment.text = decode_unreserved(u.fragment.text);
+    if (!(mask & N_PATH) || u.path.empty()) return;
+    // percent-encoding first (segment by segment; '/' is never produced because %2F is not unreserved)
+    Str p = decode_unreserved(u.path);
+    bool rooted = p[0] == '/';
+    if (rooted) {
+        Str r = remove_dot_segments(p);
+        if (!u.has_authority && r.compare(0, 2, "//") == 0) r = "/." + r;
+        u.path = r; return;
+    }
+    std::vector<Str> segs = split_path(p);
+    if (u.scheme.present) {                       // rootless path of a URI: stays rootless
+        std::vector<Str> L = remove_dots_list(segs, false);
+        if (L.size() > 1 && L[0].empty()) L.insert(L.begin(), ".");
+        u.path = join_path(L); return;
+    }
+    // relative-path reference: keep the leading ".." run
+    std::vector<Str> L; bool trail = false;
+    for (size_t i = 0; i < segs.size(); i++) {
+        bool last = i + 1 == segs.size(); trail = false;
+        if (segs[i] == ".") { if (last) trail = true; }
+        else if (segs[i] == "..") { if (!L.empty() && L.back() != "..") { L.pop_back(); if (last) trail = true; } else L.push_back(".."); }
+        else L.push_back(segs[i]);
+    }
+    if (trail && !(L.size() && L.back() == ".." )) L.push_back("");
+    else if (trail) L.push_back("");
+    Str t = join_path(L);
+    if (t.empty()) { u.path = ""; out.path_alts.push_back("./"); out.path_alts.push_back("."); return; }   // reduces to "the current directory": the statement (C08) does not pick a spelling; C09 decides about ""
+    if (has_colon(L[0]) || (L[0].empty() && L.size() > 1)) L.insert(L.begin(), ".");
+    u.path = join_path(L);
+}
+bool path_matches(const Normal &n, const Str &t) {
+    if (t == n.u.path) return true;
+    for (size_t i = 0; i < n.path_alts.size(); i++) if (t == n.path_alts[i]) return true;
+    return false;
+}
+
 }  // namespace ref
